@@ -579,10 +579,15 @@ func (op *ShellOperator) taskHandleHookRun(t task.Task) queue.TaskResult {
 			}
 		}
 		if shouldCombine {
-			// Do not combine with a Synchronization that should not be executed ("executeHookOnSynchronization: false").
 			stopCombineFn := func(tsk task.Task) bool {
 				next := task_metadata.HookMetadataAccessor(tsk)
+				// Do not combine with a Synchronization that should not be executed ("executeHookOnSynchronization: false").
 				if next.IsSynchronization() && !next.ExecuteOnSynchronization {
+					return true
+				}
+				// The combined task keeps the AllowFailure of the task being executed:
+				// do not merge tasks of bindings with a different "allowFailure".
+				if next.AllowFailure != hookMeta.AllowFailure {
 					return true
 				}
 				return false
